@@ -105,7 +105,7 @@ def run_cell(args):
                 ndiv += 1
                 r = orc.call(hname, cell, inputs, otime)
                 if r["status"] == "timeout":
-                    stop_cell = ndiv >= 2      # confirmed non-termination: do not burn the cell
+                    stop_cell = True           # confirmed (twice, the second time with a long budget): do not burn the cell
                     _cand(res, seen_labels, getattr(mod, "DIVERGE_LABEL", "non-termination"),
                           str(rec["exc"]), inputs, r, confirmed=True)
                 else:
